@@ -108,11 +108,12 @@ func runHistProperty(t *testing.T, prop string, quick, thorough int) {
 	ps := profiles(prop)
 	n := cfg.N(quick, thorough)
 	for i := 0; i < n; i++ {
-		if !cfg.Mine(i) {
+		seed := cfg.CaseSeed(prop, i)
+		if !cfg.Want(i, seed) {
 			continue
 		}
 		p := ps[i%len(ps)]
-		hist.RunHistory(t, col, prop, p, cfg.CaseSeed(prop, i))
+		hist.RunHistory(t, col, prop, p, seed)
 	}
 }
 
